@@ -192,8 +192,20 @@ def page_reference_rule(chk, facts, rule):
     for b, i, ln, m in d.nodes():
         if m[0] == 'b' and m[1] == '&' and const_val(m[3]) == 0x0f00:
             inner = nocast(m[2])
-            if inner[0] == 'b' and inner[1] == '+' and const_val(inner[3]) is not None:
+            if inner[0] == 'b' and inner[1] == '+':
                 k = const_val(inner[3])
+                if k is None:
+                    # Address + pInfo->CodeLen: the value is whatever was stored into .CodeLen before, in this block
+                    x = nocast(inner[3])
+                    if x[0] == 'm' and x[2].endswith('.CodeLen'):
+                        k = 0
+                        for ln2, ex in d.blocks[b]['elems'][:i]:
+                            for y in walk_own(ex):
+                                if is_assign(y) and y[1] == '=' and strip(y[2])[0] == 'm' and strip(y[2])[2].endswith('.CodeLen') and \
+                                        const_val(y[3]) is not None:
+                                    k = const_val(y[3])
+                    else:
+                        continue
                 # instruction length stored in the same block
                 ls = {const_val(x[3]) for ln2, ex in d.blocks[b]['elems'] for x in walk_own(ex)
                       if is_assign(x) and x[1] == '=' and strip(x[2])[0] == 'm' and strip(x[2])[2].endswith('.CodeLen') and const_val(x[3])}
